@@ -15,7 +15,7 @@
    An operation returns the world it leaves behind together with the exception class it
    raised, if any (Python leaves partially updated state behind when it raises).
    No proofs in this file. *)
-From Coq Require Import ZArith.
+From Coq Require Import ZArith Uint63.
 From V Require Export Common.Num.
 Close Scope Q_scope.
 Open Scope nat_scope.
@@ -697,17 +697,17 @@ Definition oflag_ok (model : bool) (impl : option bool) : bool :=
 (* ---------- comparison through a rolling checksum ----------
    Writing every intermediate observation into the generated case files makes coqc spend minutes
    parsing literals, so the harness and the model both fold the complete per-operation record
-   (exception class, precondition flag, whole observation) into a 61-bit polynomial checksum
-   h' = (h * HB + token + 1) mod HP and only the checksums (and the final observation, in
+   (exception class, precondition flag, whole observation) into a 63-bit polynomial checksum
+   h' = (h * HB + token + 1) mod 2^63 (primitive 63-bit integers) and only the checksums (and the final observation, in
    full) are compared. *)
-Definition HP : Z := 2305843009213693951%Z.      (* 2^61 - 1 *)
-Definition HB : Z := 1000003%Z.
-Definition hmix (h : Z) (x : nat) : Z := ((h * HB + Z.of_nat x + 1) mod HP)%Z.
-Definition hopt (h : Z) (o : option nat) : Z := hmix h (match o with None => 0 | Some n => S n end).
-Definition hash_cslot (h : Z) (c : cslot) : Z :=
+Definition HB : int := 1000003%uint63.
+Fixpoint int_of_nat (n : nat) : int := match n with O => 0%uint63 | S n' => (1 + int_of_nat n')%uint63 end.
+Definition hmix (h : int) (x : nat) : int := (h * HB + int_of_nat x + 1)%uint63.     (* wraps modulo 2^63 *)
+Definition hopt (h : int) (o : option nat) : int := hmix h (match o with None => 0 | Some n => S n end).
+Definition hash_cslot (h : int) (c : cslot) : int :=
   let '(r, i, k, s) := c in hopt (hopt (hmix (hmix h (if r then 1 else 0)) i) k) s.
-Definition hash_slots (h : Z) (l : list cslot) : Z := fold_left hash_cslot l (hmix h (length l)).
-Definition hash_obs (h : Z) (o : obs) : Z :=
+Definition hash_slots (h : int) (l : list cslot) : int := fold_left hash_cslot l (hmix h (length l)).
+Definition hash_obs (h : int) (o : obs) : int :=
   let h1 := fold_left (fun h u => hash_slots (hash_slots h (fst u)) (snd u)) (fst o) (hmix h (length (fst o))) in
   fold_left (fun h p => hopt (hopt h (fst p)) (snd p)) (snd o) (hmix h1 (length (snd o))).
 Definition err_code (e : option err) : nat :=
@@ -716,10 +716,10 @@ Definition err_code (e : option err) : nat :=
   | Some _ => 9
   end.
 (* flag token: 0/1 = the precondition flag, compared; 2 = not compared for this operation *)
-Definition hstep (h : Z) (cmp pre : bool) (r : option err) (w' : world) : Z :=
+Definition hstep (h : int) (cmp pre : bool) (r : option err) (w' : world) : int :=
   hash_obs (hmix (hmix h (err_code r)) (if cmp then (if pre then 1 else 0) else 2)) (observe w').
 
-Fixpoint run_hash (stp : world -> op -> outcome) (w : world) (ops : list op) (cmps : list bool) (h : Z) : world * Z :=
+Fixpoint run_hash (stp : world -> op -> outcome) (w : world) (ops : list op) (cmps : list bool) (h : int) : world * int :=
   match ops with
   | [] => (w, h)
   | o :: t => let cmp := match cmps with c :: _ => c | [] => false end in
@@ -727,9 +727,9 @@ Fixpoint run_hash (stp : world -> op -> outcome) (w : world) (ops : list op) (cm
               run_hash stp w' t (tl cmps) (hstep h cmp (preb w o) r w')
   end.
 Definition check_hist (stp : world -> op -> outcome) (w : world) (ops : list op) (cmps : list bool)
-           (expected : Z) (final : obs) : bool :=
-  let (w', h) := run_hash stp w ops cmps (hash_obs 0%Z (observe w)) in
-  Z.eqb h expected && obs_eqb (observe w') final.
+           (expected : int) (final : obs) : bool :=
+  let (w', h) := run_hash stp w ops cmps (hash_obs 0%uint63 (observe w)) in
+  Uint63.eqb h expected && obs_eqb (observe w') final.
 
 (* operations whose precondition flag the harness computes exactly in every state *)
 Definition flag_exact (o : op) : bool :=
@@ -738,15 +738,15 @@ Definition flag_exact (o : op) : bool :=
   | _ => true
   end.
 (* every sequence of [d] operations over the alphabet [A] from world [w]: sum of the checksums *)
-Fixpoint enum_sum (stp : world -> op -> outcome) (A : list op) (d : nat) (w : world) (h : Z) : Z :=
+Fixpoint enum_sum (stp : world -> op -> outcome) (A : list op) (d : nat) (w : world) (h : int) : int :=
   match d with
   | O => h
   | S d' => fold_left (fun acc o =>
               let (w', r) := stp w o in
-              ((acc + enum_sum stp A d' w' (hstep h (flag_exact o) (preb w o) r w')) mod HP)%Z) A 0%Z
+              (acc + enum_sum stp A d' w' (hstep h (flag_exact o) (preb w o) r w'))%uint63) A 0%uint63
   end.
-Definition check_enum (stp : world -> op -> outcome) (w : world) (A : list op) (d : nat) (expected : Z) : bool :=
-  Z.eqb (enum_sum stp A d w (hash_obs 0%Z (observe w))) expected.
+Definition check_enum (stp : world -> op -> outcome) (w : world) (A : list op) (d : nat) (expected : int) : bool :=
+  Uint63.eqb (enum_sum stp A d w (hash_obs 0%uint63 (observe w))) expected.
 
 Fixpoint trace (stp : world -> op -> outcome) (w : world) (ops : list op) : list (option err * bool * obs) :=
   match ops with
